@@ -52,7 +52,16 @@ OBJECT_LABELS = ("Surveys", "Trace", "TraceDepth", "Property Group IDs")
 # payloads
 # ---------------------------------------------------------------------------
 def tags(h, name, ver, n):
-    return [float(1000 * HIDX[h] + 100 * NIDX[name] + 10 * (ver % 10) + i) for i in range(n)]
+    """Unique tags; a NaN gap (None in the model) at position 1 of every second writing, so
+    that no-data handling of arrays SHARED between holes is exercised (length >= 2 only)."""
+    out = [float(1000 * HIDX[h] + 100 * NIDX[name] + 10 * (ver % 10) + i) for i in range(n)]
+    if n >= 2 and (HIDX[h] + ver) % 2 == 1:
+        out[1] = None
+    return out
+
+
+def as_array(vals):
+    return np.array([np.nan if v is None else v for v in vals], dtype=float)
 
 
 def locs(h, g, gen, n):
@@ -150,7 +159,7 @@ def m_apply(m, op):
         ver = m["writes"].get(f"{h}.{name}", 0)
         m["writes"][f"{h}.{name}"] = ver + 1
         nv = max(grp["n"] - (1 if short else 0), 0)
-        vals = tags(h, name, ver, nv) + [None] * (grp["n"] - nv)
+        vals = tags(h, name, ver, grp["n"])[:nv] + [None] * (grp["n"] - nv)
         hole["data"][name] = {"vals": vals, "group": g, "role": "prop", "src": h}
         grp["members"].append(name)
     elif k == "update":
@@ -391,7 +400,7 @@ class Exec:
                 else:
                     lv = locs(h, g, m["ggen"].get(f"{h}.{g}", 0), n)
                 nv = max(len(lv) - (1 if short else 0), 0)
-                spec = {"values": np.array(tags(h, name, m["writes"].get(f"{h}.{name}", 0), nv), dtype=float)}
+                spec = {"values": as_array(tags(h, name, m["writes"].get(f"{h}.{name}", 0), len(lv))[:nv])}
                 if how == "loc":
                     if kind == "depth":
                         spec["depth"] = np.array(lv, dtype=float)
@@ -402,7 +411,7 @@ class Exec:
                 _, h, name = op
                 d = self.data(h, name)
                 n = len(m["holes"][h]["data"][name]["vals"])
-                d.values = np.array(tags(h, name, m["writes"].get(f"{h}.{name}", 0), n), dtype=float)
+                d.values = as_array(tags(h, name, m["writes"].get(f"{h}.{name}", 0), n))
             elif k == "resurvey":
                 _, h = op
                 mh = m["holes"][h]
